@@ -525,9 +525,12 @@ Definition cancel_order (c : cfg) (s : st) (id : nat) : outcome unit :=
   | None => Fail s EError
   | Some o =>
     if negb (is_open o) then Fail s EError else
+    (* closing an auto-repay order that traded prices the interest of every open loan: if that is going to fail it
+       fails here, before anything is changed *)
+    obind (lift s (if o_ar o && negb (Qzero (filled o)) then check_infos c s (s_loans s) else Ok tt)) (fun s _ =>
     let o1 := with_state o SCanceled in
     let s1 := put_order s o1 in
-    obind (order_closed c s1 o1) (fun s o2 => Done (push_update s o2 None) tt)
+    obind (order_closed c s1 o1) (fun s o2 => Done (push_update s o2 None) tt))
   end.
 
 (* ---------------------------------------------------------------------------------------------- *)
